@@ -111,10 +111,14 @@ def add_reg(u):
         C('C07.reg.driver.reg2_carries_adopted_id', 'sends.broadcast_reg2 is Some ==> sends.broadcast_reg2.unwrap()@ == spec_reg_packet(0x9201u16, old(self).srtla_id@)'),
         ID_SAME, 'final(self).active_connections == old(self).active_connections', 'final(self).reg1_target_idx == old(self).reg1_target_idx',
     ]))
-    F(u.fn(R, 'handle_reg_ngp', impl='SrtlaRegistrationManager', sub='reg', ensures=[
+    F(u.fn(R, 'handle_reg_ngp', impl='SrtlaRegistrationManager', sub='reg',
+           post_rewrite=[(re.compile(r'(\bself\.probing_state) == (ProbingState::\w+)'), r'matches!(\1, \2)', None), (re.compile(r'(\bself\.probing_state) != (ProbingState::\w+)'), r'!matches!(\1, \2)', None)],
+           ensures=[
         C('C07.reg.handle_reg_ngp.never_makes_a_reg1_outstanding', 'final(self).pending_reg2_idx == old(self).pending_reg2_idx && final(self).pending_timeout_at_ms == old(self).pending_timeout_at_ms'),
         ID_SAME, 'final(self).broadcast_reg2_pending == old(self).broadcast_reg2_pending', 'final(self).active_connections == old(self).active_connections',
         C('C04+C07.reg.handle_reg_ngp.session_established_flag_is_never_cleared', 'final(self).has_connected == old(self).has_connected'),
+        C('C07.reg.handle_reg_ngp.during_the_probe_round_a_reg_ngp_is_only_a_probe_answer',
+          'old(self).probing_state is WaitingForProbes ==> final(self).reg1_target_idx == old(self).reg1_target_idx && final(self).reg1_next_send_at_ms == old(self).reg1_next_send_at_ms'),
         C('C07.reg.handle_reg_ngp.target_only_while_idle', '''final(self).reg1_target_idx != old(self).reg1_target_idx ==> old(self).active_connections == 0 && old(self).pending_reg2_idx is None
             && final(self).reg1_target_idx == Some(conn_idx) && final(self).reg1_next_send_at_ms == now_ms'''),
     ]))
@@ -129,11 +133,11 @@ def add_reg(u):
         'final(self).probing_state == old(self).probing_state',
     ]))
     F(u.fn(R, 'handle_reg3', impl='SrtlaRegistrationManager', sub='reg', ensures=[
-        C('C07.reg.handle_reg3.frame', '*final(self) == (SrtlaRegistrationManager { has_connected: true, ..*old(self) })')]))
+        C('C04+C07.reg.handle_reg3.frame', '*final(self) == (SrtlaRegistrationManager { has_connected: true, ..*old(self) })')]))
     F(u.fn(R, 'handle_reg_err', impl='SrtlaRegistrationManager', sub='reg', requires=['now_ms < CLOCK_MAX'], ensures=[
         C('C07.reg.handle_reg_err.cancels_pending', 'final(self).pending_reg2_idx is None && final(self).pending_timeout_at_ms == 0 && final(self).reg1_target_idx is None'),
         'final(self).reg1_next_send_at_ms == now_ms + 4000', ID_SAME, 'final(self).broadcast_reg2_pending == old(self).broadcast_reg2_pending',
-        'final(self).active_connections == old(self).active_connections', C('C04+C07.reg.handle_reg_err.session_established_flag_is_never_cleared', 'final(self).has_connected == old(self).has_connected'),
+        'final(self).active_connections == old(self).active_connections', C('C03+C04+C07.reg.handle_reg_err.session_established_flag_is_never_cleared', 'final(self).has_connected == old(self).has_connected'),
     ]))
     F(u.fn(R, 'reg1_if_ngp_immediate', impl='SrtlaRegistrationManager', sub='reg', ret='r', requires=[NOW], ensures=[
         C('C07.reg.immediate.reg1_only_while_no_uplink_registered_and_none_outstanding',
@@ -154,7 +158,7 @@ def add_reg(u):
            pre_rewrite=[(lambda t: rules.r12_filter_count(t)[0], None, 1)],
            ensures=[
                C('C07.reg.update_active_connections.counts_exactly_the_registered_uplinks', 'final(self).active_connections == spec_count_connected(connections@)'),
-               C('C07.reg.update_active_connections.frame', '*final(self) == (SrtlaRegistrationManager { active_connections: final(self).active_connections, ..*old(self) })'),
+               C('C04+C07.reg.update_active_connections.frame', '*final(self) == (SrtlaRegistrationManager { active_connections: final(self).active_connections, ..*old(self) })'),
            ],
            loops={0: dict(inv=['c_nx <= connections.len()', 'new_count_n <= c_nx',
                                C('C07.reg.update_active_connections.counts_exactly_the_registered_uplinks', 'new_count_n as nat == spec_count_connected(connections@.subrange(0, c_nx as int))')],
